@@ -608,9 +608,8 @@ func ruleBufRelease(c *Ctx, rule string) {
 				if st.seen["put"] {
 					bad = append(bad, fmt.Sprintf("the receive buffer is returned to the pool a second time at %s: two datagrams would then share one buffer", c.P.InstrPos(in)))
 				}
-				if !st.seen["parsed"] {
-					bad = append(bad, fmt.Sprintf("the receive buffer is returned to the pool at %s before the datagram has been parsed (the parser copies out of it)", c.P.InstrPos(in)))
-				}
+				// (a release before the parse is fine on a path that never parses: any later use of the
+				// buffer - the parse included - is a read after release, reported below)
 				// what is put back is the buffer parameter
 				if a := strings.TrimPrefix(ex.Canon(st, put.Call.Args[1]).S, "&"); !strings.HasPrefix(a, "new@") {
 					bad = append(bad, "the value returned to the pool is not the address of the buffer parameter: "+a)
@@ -1008,6 +1007,18 @@ func rulePoolRetain(c *Ctx, rule string) {
 					if _, ok := poolNonRetaining[name]; ok {
 						continue
 					}
+					// a first-party callee that only reads the argument
+					if f := cc.StaticCallee(); f != nil && FirstParty(f) && len(f.Blocks) > 0 {
+						keeps := false
+						for i, a := range cc.Args {
+							if alias[a] && i < len(f.Params) && paramMayBeRetained(f, i, 0) {
+								keeps = true
+							}
+						}
+						if !keeps {
+							continue
+						}
+					}
 					if _, isGo := in.(*ssa.Go); isGo {
 						name = "a new goroutine running " + name
 					}
@@ -1022,4 +1033,112 @@ func rulePoolRetain(c *Ctx, rule string) {
 		}
 	}
 	c.R.Note("%s: %d sync.Pool.Put sites in first-party code", rule, n)
+}
+
+// paramMayBeRetained: may fn keep a reference to (the memory behind) its i-th
+// parameter after it returns - by storing it, returning it, capturing it,
+// sending it, or handing it to something that is not known to only read it?
+// Reads, reslicing, indexing, len/cap, comparisons and copies *out of* it do
+// not retain.
+func paramMayBeRetained(fn *ssa.Function, i int, depth int) bool {
+	if depth > 3 || i >= len(fn.Params) {
+		return true
+	}
+	alias := map[ssa.Value]bool{fn.Params[i]: true}
+	for changed := true; changed; {
+		changed = false
+		for _, b := range fn.Blocks {
+			for _, in := range b.Instrs {
+				v, ok := in.(ssa.Value)
+				if !ok || alias[v] {
+					continue
+				}
+				switch y := in.(type) {
+				case *ssa.Phi:
+					for _, e := range y.Edges {
+						if alias[e] {
+							alias[v], changed = true, true
+						}
+					}
+				case *ssa.Slice:
+					if alias[y.X] {
+						alias[v], changed = true, true
+					}
+				case *ssa.ChangeType:
+					if alias[y.X] {
+						alias[v], changed = true, true
+					}
+				case *ssa.MakeInterface:
+					if alias[y.X] {
+						alias[v], changed = true, true
+					}
+				case *ssa.IndexAddr:
+					if alias[y.X] {
+						alias[v], changed = true, true // an interior pointer
+					}
+				}
+			}
+		}
+	}
+	for _, b := range fn.Blocks {
+		for _, in := range b.Instrs {
+			switch y := in.(type) {
+			case *ssa.Store:
+				if alias[y.Val] {
+					return true
+				}
+			case *ssa.Return:
+				for _, r := range y.Results {
+					if alias[r] {
+						return true
+					}
+				}
+			case *ssa.MakeClosure:
+				for _, bnd := range y.Bindings {
+					if alias[bnd] {
+						return true
+					}
+				}
+			case *ssa.Send:
+				if alias[y.X] {
+					return true
+				}
+			case *ssa.MapUpdate:
+				if alias[y.Key] || alias[y.Value] {
+					return true
+				}
+			case *ssa.Go, *ssa.Defer:
+				cc := in.(ssa.CallInstruction).Common()
+				for _, a := range cc.Args {
+					if alias[a] {
+						return true
+					}
+				}
+			case *ssa.Call:
+				if _, isB := y.Call.Value.(*ssa.Builtin); isB {
+					if b := y.Call.Value.(*ssa.Builtin); b.Name() == "append" && len(y.Call.Args) > 0 && alias[y.Call.Args[0]] {
+						return true // the result shares the argument's array
+					}
+					continue
+				}
+				for j, a := range y.Call.Args {
+					if !alias[a] {
+						continue
+					}
+					g := y.Call.StaticCallee()
+					if g == nil {
+						return true
+					}
+					if _, ok := poolNonRetaining[g.String()]; ok {
+						continue
+					}
+					if FirstParty(g) && len(g.Blocks) > 0 && !y.Call.IsInvoke() && !paramMayBeRetained(g, j, depth+1) {
+						continue
+					}
+					return true
+				}
+			}
+		}
+	}
+	return false
 }
